@@ -33,7 +33,8 @@ Slides == { [shapes |-> s, notes |-> n] : s \in ShapeLists, n \in { <<>>, <<R>> 
 (* sheet = rows of cells; a cell is 1 (token string) or 0 (empty) *)
 SheetGrids ==
     { <<>>, << <<1>> >>, << <<1, 1>>, <<1, 1>> >>, << <<1, 0, 1>>, <<0, 1, 1>> >>,
-      << <<1, 1>>, <<0, 0>>, <<1, 1>> >>, << <<1>>, <<1>>, <<1>> >>, << <<0, 1>>, <<1, 1>> >> }
+      << <<1, 1>>, <<0, 0>>, <<1, 1>> >>, << <<1>>, <<1>>, <<1>> >>, << <<0, 1>>, <<1, 1>> >>,
+      << <<0, 0, 1>>, <<1, 1, 1>> >> }                      \* two empty header cells (header names collide)
 
 (* page = lines of token counts *)
 Pages == { <<>>, <<1>>, <<2, 1>>, <<1, 1, 1>> }
